@@ -76,6 +76,7 @@ func stop(i int) Event             { return Event{Kind: EvStop, Node: uint8(i)} 
 func unreach(i, j int) Event       { return Event{Kind: EvUnreachable, Node: uint8(i), Peer: uint8(j)} }
 func reportSnap(i, j, f int) Event { return Event{Kind: EvReportSnap, Node: uint8(i), Peer: uint8(j), Arg: uint16(f)} }
 func forget(i int) Event           { return Event{Kind: EvForgetLeader, Node: uint8(i)} }
+func pauseApply(i, on int) Event   { return Event{Kind: EvPauseApply, Node: uint8(i), Arg: uint16(on)} }
 
 func ticks(i, n int) []Event {
 	var out []Event
@@ -180,7 +181,7 @@ func scriptRestartStages() []Event {
 	return seq(camp(1), crash(2, 0), prop(1), crash(1, 0), camp(2), prop(2), crash(3, CrashAppliedZero), prop(2), crash(2, 0), camp(3), prop(3))
 }
 
-var defaultFaults = []int{int(BDrop), 1, int(BDup), 1, int(BCrash), 1, int(BCampaign), 1, int(BPropose), 1}
+var defaultFaults = []int{int(BDrop), 1, int(BDup), 1, int(BCrash), 1, int(BCampaign), 1, int(BPropose), 1, int(BDelay), 1}
 
 // ---------------------------------------------------------------- snapshot / compaction
 
@@ -192,6 +193,65 @@ func scriptSnapshot() []Event {
 func scriptSnapshotRestart() []Event {
 	return seq(camp(1), prop(1), prop(1), compact(2, 0), crash(2, CrashAppliedZero), isolate(3), prop(1), prop(1), compact(1, 0), heal(), prop(1),
 		crash(3, 0), prop(1), compact(3, 0), crash(3, CrashAppliedZero), prop(1))
+}
+
+// scriptSnapshotTwice: the leader compacts twice, so that two different snapshots
+// can be on their way to the same follower (the first one delayed).
+func scriptSnapshotTwice() []Event {
+	return seq(camp(1), prop(1), isolate(3), prop(1), compact(1, 0), heal(), tick(1), prop(1), prop(1), compact(1, 0), reportSnap(1, 3, 1), tick(1), prop(1), tick(1), prop(1))
+}
+
+// scriptSnapshotDivergent: the follower that needs a snapshot is a deposed leader
+// with a long uncommitted tail; the snapshot status is reported and a heartbeat
+// goes out while the snapshot itself may still be in flight.
+func scriptSnapshotDivergent() []Event {
+	return seq(camp(3), isolate(3), prop(3), prop(3), prop(3), prop(3), prop(3), camp(1), prop(1), prop(1), prop(1), compact(1, 0), heal(), tick(1), reportSnap(1, 3, 0), tick(1), prop(1), tick(1))
+}
+
+// bfsPagination: the leader proposes a batch of three large
+// entries and then a small one; the apply quota admits one large entry (or a large
+// and a small one) per Ready. Ready/apply/Advance are separate steps, so new
+// entries and commit indexes arrive while a page is being applied and the
+// committed-but-unapplied range straddles stable storage and the unstable tail.
+func bfsPagination(f feat, quota uint64) *Scenario {
+	c := f.cfg()
+	c.MaxCommittedSize = quota
+	s := newSc(fmt.Sprintf("bfs/pagination/%s/quota%d", f.tag(), quota), 3, ids(3), c)
+	s.Prefix = []Event{camp(1)}
+	s.Budget[BPropose] = 2
+	s.PropSizes = []int{30, 1}
+	s.PropBatch = []int{3, 1}
+	s.ProposeNodes = []uint8{1}
+	if f.async {
+		s.LazyLocal = true
+	} else {
+		s.SplitReady = true
+	}
+	return s
+}
+
+// scriptConfLag: node 1's apply thread is paused while the leader demotes the two
+// other voters one after the other; the leader restarts and elects itself in a new
+// term (it is the only voter); node 1, two committed changes behind, is asked to campaign.
+func scriptConfLag() []Event {
+	return seq(camp(3), prop(3), pauseApply(1, 1), conf(3, 0), conf(3, 1), prop(3), isolate(3), crash(3, 0), camp(3), camp(1), prop(1), heal(), pauseApply(1, 0), prop(3))
+}
+
+// bfsConfLag: leader 3 demotes the other voters one by one while their apply
+// threads may lag; the lagging node and the leader may campaign.
+func bfsConfLag(f feat) *Scenario {
+	s := newSc("bfs/conf-lag/"+f.tag(), 3, ids(3), f.cfg())
+	s.Prefix = []Event{camp(3)}
+	s.ConfMenu = []ConfSpec{{Changes: "l1"}, {Changes: "l2"}}
+	s.ConfNodes = []uint8{3}
+	s.Budget[BProposeConf] = 2
+	s.Budget[BCampaign] = 2
+	s.CampaignNodes = []uint8{1, 3}
+	s.MaxTerm = 2
+	if !f.async {
+		s.SplitReady = true
+	}
+	return s
 }
 
 // bfsSnapshot: leader 1 has compacted past what node 3 holds; the snapshot, appends,
@@ -294,6 +354,12 @@ func scriptReadRemovedLeader() []Event {
 	return seq(camp(1), prop(1), read(1), conf(1, 0), prop(2), read(1), camp(2), prop(2), read(1), read(2))
 }
 
+// scriptReadJointShrink: the group shrinks to one incoming voter through an explicit
+// joint configuration; reads are issued while the configuration is joint.
+func scriptReadJointShrink() []Event {
+	return seq(camp(1), prop(1), conf(1, 0), read(1), read(2), prop(1), read(1), conf(1, 1), read(1), prop(1))
+}
+
 func scriptReadConf() []Event {
 	return seq(camp(1), prop(1), read(2), conf(1, mRemove1), read(1), read(2), camp(2), read(3), prop(2), read(1))
 }
@@ -372,6 +438,14 @@ var pvF = feat{prevote: true}
 var cqF = feat{checkq: true}
 var pvcqF = feat{prevote: true, checkq: true}
 var asyncPvF = feat{async: true, prevote: true}
+
+// tickSnap: heartbeats on every leader tick, elections far away.
+func tickSnap(s *Scenario) *Scenario {
+	c := s.cfg(0)
+	c.ElectionTick, c.HeartbeatTick, c.Timeout = 10, 1, 10
+	s.Cfg = []NodeCfg{c}
+	return s
+}
 
 type pool struct {
 	bfs, dd []*Scenario
@@ -456,7 +530,10 @@ func poolSnapshot(tier string) (p pool) {
 			ddScn("snapshot", 3, ids(3), f, scriptSnapshot(), k, fl...),
 			ddScn("snapshot-restart", 3, ids(3), f, scriptSnapshotRestart(), k, fl...),
 			split(ddScn("snapshot", 3, ids(3), f, scriptSnapshot(), k, fl...)),
+			tickSnap(ddScn("snapshot-twice", 3, ids(3), f, scriptSnapshotTwice(), k+1, int(BDelay), 1, int(BDup), 1)),
+			tickSnap(ddScn("snapshot-divergent", 3, ids(3), f, scriptSnapshotDivergent(), k, fl...)),
 		)
+		p.bfs = append(p.bfs, bfsSnapshot(f, int(BTick), 1), bfsPagination(f, 60))
 	}
 	return
 }
@@ -470,6 +547,11 @@ func poolConf(tier string) (p pool) {
 			confSc("joint", f, scriptJoint(), k, defaultFaults...),
 			confSc("conf+failover", f, scriptConfFailover(), k, defaultFaults...),
 		)
+	}
+	{
+		cl := ddScn("conf-lag", 3, ids(3), asyncF, scriptConfLag(), k, defaultFaults...)
+		cl.ConfMenu = []ConfSpec{{Changes: "l1"}, {Changes: "l2"}}
+		p.dd = append(p.dd, cl)
 	}
 	for _, f := range []feat{syncF, asyncF} {
 		cb := append([]int{int(BProposeConf), 1}, defaultFaults...)
@@ -495,6 +577,9 @@ func poolRead(tier string) (p pool) {
 		p.dd = append(p.dd, rc)
 		one := ddScn("read-singleton", 1, ids(1), f, scriptReadSingleton(), k+1, int(BRead), 1, int(BCrash), 1, int(BPropose), 1)
 		p.dd = append(p.dd, one)
+		js := ddScn("read-joint-shrink", 3, ids(3), f, scriptReadJointShrink(), k, int(BRead), 1, int(BDrop), 1, int(BCampaign), 1, int(BDelay), 1)
+		js.ConfMenu = []ConfSpec{{Transition: pb.ConfChangeTransitionJointExplicit, Changes: "r2 r3"}, {}}
+		p.dd = append(p.dd, js)
 		rl := ddScn("read-removed-leader", 2, ids(2), f, scriptReadRemovedLeader(), k, int(BRead), 1, int(BDrop), 1, int(BPropose), 1)
 		rl.ConfMenu = []ConfSpec{{Changes: "r1"}}
 		p.dd = append(p.dd, rl)
@@ -598,6 +683,7 @@ func Jobs(prop, tier string) []*Job {
 	case "C06":
 		add(poolSafety(tier), prop)
 		add(poolConf(tier), prop)
+		add(poolSnapshot(tier), prop)
 	case "C07":
 		add(poolElection(tier), prop)
 		add(poolSafety(tier), prop)
